@@ -418,6 +418,19 @@ Definition sort_report (rep : report) : report :=
 
 Definition is_home (cfg : config) (n : node) : bool := existsb (fun hn => N.eqb (hn_id hn) n) (c_nodes cfg).
 
+(* transformAndSortObservations: the comparator of the final sort.Slice indexes FixedDestLaneUpdates[0] of BOTH
+   entries whenever two attributed observations carry the same SignerNodeIndex, and validation accepts an observation
+   without lane updates, so the sort panics (index out of range) when one node has two accepted observations one of
+   which is empty.  Which pairs sort.Slice compares depends on its algorithm; the model panics for every such pair
+   (exact for the repaired code, where no node has two accepted observations — proved in RmnP.v). *)
+Definition nilb {A} (l : list A) : bool := match l with [] => true | _ => false end.
+Fixpoint tas_panics (acc : acc_t) : bool :=
+  match acc with
+  | [] => false
+  | a :: rest =>
+      existsb (fun b => N.eqb (fst a) (fst b) && (nilb (snd a) || nilb (snd b))) rest || tas_panics rest
+  end.
+
 Record sigsend := mkSigsend { gs_ids : ids_t; gs_asked : list node; gs_k : nat; gs_log : list send_rec }.
 
 (* the loop of sendReportSignatureRequest over randomShuffle(signers) *)
@@ -489,6 +502,7 @@ Section PhaseB.
         | Some rep0 =>
             let rep := sort_report rep0 in
             if negb (c_dest_known cfg) then Done (Failure FDest, log)
+            else if tas_panics acc then Done (Crash, log)
             else
               let gs := send_sigs_first cfg sc (order_by (s_shufB1 sc) (signer_nodes cfg)) (mkSigsend [] [] k log) in
               if lt_f_plus_one (c_remoteF cfg) (zlen (dedupN (map fst (gs_ids gs))))
